@@ -74,7 +74,7 @@ PROPS = {
         'trusted': ['hand-written interaction-tree model of the handler tied to the code by the differential run', 'oracles: jwt parsing/claims (jwx), JWS verification, SHA-256; url.Parse of the callback URI', 'interleavings: per-check theorems hold for every thread under any schedule; cross-thread consumption (overlapping callbacks of one session) is exercised by enumerating interleavings on the real code, not proved; generator freshness/distinctness is an assumption discharged by C06'],
     },
     'C09': {
-        'theorems': ['logout_answer', 'logout_answer_shape', 'logout_only_after_removal', 'removal_erases', 'ok_requires_tokens_read', 'writes_need_prior_read', 'resurrection_logout_answered', 'resurrection_inflight_ok', 'logout_resurrection',
+        'theorems': ['logout_answer', 'logout_answer_shape', 'logout_only_after_removal', 'removal_erases', 'ok_requires_tokens_read', 'writes_need_prior_read', 'resurrection_logout_answered', 'resurrection_inflight_ok', 'logout_resurrection', 'finality_characterisation',
                      'redis_removal_reported_faithfully', 'redis_nothing_after_removal', 'logout_uri_configured_or_discovered', 'discovery_refuses_logout_without_uri'],
         'trusted': ['hand-written interaction-tree model of the handler tied to the code by the differential run', 'oracles: jwt parsing/claims (jwx), JWS verification, SHA-256; url.Parse of the callback URI', 'schedule-level finality is NOT a theorem: the model exhibits the resurrection schedule (known finding); every interleaving of logout x one or two checks is enumerated on real goroutines and on the Sched model'],
     },
